@@ -188,7 +188,7 @@ def _run_shard(arg):
     return rep.export()
 
 
-def run_shards(report, fn, shard_args, nproc=None, fresh_process=False):
+def run_shards(report, fn, shard_args, nproc=None, fresh_process=False, shard_timeout=7200):
     """Run fn(report_shard, arg) for every arg, in forked workers, merging results in order.
     fresh_process: every shard runs in a newly forked process (process-wide library state such as the
     identifier registries then starts from the parent's state for each shard)."""
@@ -201,7 +201,11 @@ def run_shards(report, fn, shard_args, nproc=None, fresh_process=False):
     else:
         ctx = multiprocessing.get_context("fork")
         with ctx.Pool(nproc, maxtasksperchild=1 if fresh_process else None) as pool:
-            results = pool.map(_run_shard, shard_args, chunksize=1)
+            try:
+                results = pool.map_async(_run_shard, shard_args, chunksize=1).get(timeout=shard_timeout)
+            except multiprocessing.TimeoutError:
+                pool.terminate()
+                raise HarnessError(f"shards did not finish within {shard_timeout}s")
     for r in results:
         if "harness_error" in r:
             raise HarnessError(r["harness_error"])
